@@ -273,6 +273,10 @@ func (c *Chunk) addLocked(chunk pb.Chunk) bool {
 	if c.shouldValidate(chunk) {
 		if !td.validator.AddChunk(chunk.Data, chunk.ChunkId) {
 			plog.Warningf("ignored a invalid chunk %s", key)
+			// the stream is corrupt, stop tracking it so its remaining chunks
+			// are ignored and it can never be finalized
+			c.removeTempDir(chunk)
+			c.reset(key)
 			return false
 		}
 	}
